@@ -19,7 +19,8 @@ def pitfalls(ctx, rule, files):
                 "to be non-zero (for n == 0 it is the whole sequence); (b) tests for DIFFERENT keys of one mapping are not chained "
                 "with elif (`if 'a' in d: .. elif 'b' in d: ..` handles only one of two independent entries); (c) tolerances handed "
                 "positionally to np.allclose / np.isclose come in numpy's order (rtol, atol); (d) np.meshgrid over a variable number of "
-                "axes (an index-combination grid) states indexing='ij' (the default 'xy' swaps the first two axes).")
+                "axes (an index-combination grid) states indexing='ij' (the default 'xy' swaps the first two axes); (e) np.allclose / np.isclose "
+                "with a stated atol also state rtol (numpy's default rtol=1e-5 otherwise applies on top), except against a literal 0.")
     rels = {x[len("strawberryfields/"):] if x.startswith("strawberryfields/") else x for x in files}
     n = 0
     for f in ctx.tree.all_functions():
@@ -67,6 +68,13 @@ def pitfalls(ctx, rule, files):
                 ctx.ob(rule, f.site, ok, "" if ok else f"`{ast.unparse(sub)[:60]}` passes the tolerances positionally in the order "
                        "(atol, rtol); numpy takes (rtol, atol): the absolute tolerance is applied as a relative one", role="tolerance-order",
                        line=sub.lineno)
+            if isinstance(sub, ast.Call) and (dotted(sub.func) or "").split(".")[-1] in ("allclose", "isclose") and len(sub.args) == 2 and \
+                    any(k.arg == "atol" for k in sub.keywords) and not any(k.arg == "rtol" for k in sub.keywords) and \
+                    not any(isinstance(a, ast.Constant) and a.value == 0 for a in sub.args):
+                # an absolute tolerance is stated, the relative one is left at numpy's default 1e-5 (harmless only against 0)
+                n += 1
+                ctx.ob(rule, f.site, False, f"`{ast.unparse(sub)[:60]}` states atol but not rtol: numpy's default rtol=1e-5 applies on top, "
+                       "so deviations up to 1e-5 of the entries pass whatever the stated tolerance", role="implicit-rtol", line=sub.lineno)
             if isinstance(sub, ast.Call) and (dotted(sub.func) or "").split(".")[-1] == "meshgrid" and \
                     any(isinstance(a, ast.Starred) for a in sub.args) and not any(k.arg == "indexing" for k in sub.keywords):
                 # a variable number of axes = an index-combination grid; numpy's default indexing='xy' swaps the first two axes
